@@ -39,16 +39,19 @@ Proof. exact ad32_orig_refuted_lemma. Qed.
 Print Assumptions array_diff_int32_overflow_refuted.
 
 (** ** Object matching (match(): cosequential walk of the two object lists, no sortedness needed):
-    an object whose name occurs in one file only gets a one-sided table entry and is counted. *)
+    an object whose name occurs in one file only gets a one-sided table entry (what `hdiff -b` prints). *)
 Theorem match_flags_added_removed : forall l1 l2 o,
-  (In o l1 -> ~ In (o_name o) (map o_name l2) -> In (Only1 o) (cmatch l1 l2) /\ 1 <= match_m l1 l2) /\
-  (In o l2 -> ~ In (o_name o) (map o_name l1) -> In (Only2 o) (cmatch l1 l2) /\ 1 <= match_m l1 l2).
+  (In o l1 -> ~ In (o_name o) (map o_name l2) -> In (Only1 o) (cmatch l1 l2)) /\
+  (In o l2 -> ~ In (o_name o) (map o_name l1) -> In (Only2 o) (cmatch l1 l2)).
 Proof. intros l1 l2 o. split; [apply match_flags_removed_lemma | apply match_flags_added_lemma]. Qed.
 Print Assumptions match_flags_added_removed.
 
-(** before the repair (fix: 543409e) such an object went unnoticed *)
-Theorem match_added_object_refuted : exists l1 l2 o, In o l2 /\ ~ In (o_name o) (map o_name l1) /\ match_orig l1 l2 = 0.
-Proof. exact match_orig_refuted_lemma. Qed.
+(** ... but the count (hence the exit status) ignores one-sided entries: the faithful model violates "flags any
+    added/removed object".  Known finding (known_findings.d/C19.json): counting them makes the pinned hrepack
+    *_DFF tests fail, whose file pairs list internal Vdatas (chunk tables, attribute Vdatas) in different orders. *)
+Theorem match_added_object_refuted : exists l1 l2 o, In o l2 /\ ~ In (o_name o) (map o_name l1) /\
+  In (Only2 o) (cmatch l1 l2) /\ match_m l1 l2 = 0 /\ 1 <= match_wanted l1 l2.
+Proof. exact match_added_refuted_lemma. Qed.
 Print Assumptions match_added_object_refuted.
 
 (** the table is symmetric: swapping the files mirrors every entry *)
@@ -98,7 +101,7 @@ Theorem diff_vs_flags_value : forall n f v1 v2, v1 <> v2 -> diff_vs_m n f v1 n f
 Proof. exact diff_vs_flags_value_lemma. Qed.
 Print Assumptions diff_vs_flags_value.
 
-(** before the repair (fix: 82e4c2e) diff_gr handed array_diff only xdim*ydim elements: a 2x1 image with 2
+(** before the repair (fix: b3b565d) diff_gr handed array_diff only xdim*ydim elements: a 2x1 image with 2
     components differing in its last value was not flagged *)
 Theorem diff_gr_component_count_refuted : exists v1 v2, v1 <> v2 /\ length v1 = length v2 /\
   let n := Z.to_nat (2 * 1) in ad_count 21 (opts0 2) (firstn n v1) (firstn n v2) = 0.
@@ -108,7 +111,8 @@ Print Assumptions diff_gr_component_count_refuted.
 (** PARTIAL -- the full statement "hdiff exits 0 exactly when the files hold equal comparable content" is
       forall f1 f2, comparable f1 f2 -> hdiff_exit_m f1 f2 = spec_exit f1 f2.
     Proved here: the direction "equal content -> nothing reported, exit 0 = spec_exit".  The other direction is
-    proved in pieces above (added/removed object; changed data value of an SDS, an image, a Vdata); missing for
+    proved in pieces above (changed data value of an SDS, an image, a Vdata; an added/removed object is refuted, see
+    match_added_object_refuted); missing for
     the single statement: the lemma that one changed value in a local (sds_attrs_diff) or global (gattr_diff_m)
     attribute makes the count positive, and the assembly of the pieces over the object list.  Those two cases
     rest on the correspondence (mutation kinds attr-S, attr-G) only. *)
@@ -173,7 +177,7 @@ Definition ex_file2 : file :=
          [mkobj [103] BVg; mkobj [105] (BGr 21 2 2 1 [1; 2; 3; 5]); mkobj [115] (BSds 20 [2; 2] [127; 0; 1; 127] [mkattr [117] 22 [5]])].
 
 Example ex_files : NoDup (map a_name (f_gattrs ex_file1)) /\ hdiff_m ex_file1 ex_file1 = 0 /\
-  hdiff_m ex_file1 ex_file2 = 3 /\ hdiff_m ex_file2 ex_file1 = 3 /\ spec_exit ex_file1 ex_file2 = 1 /\
+  hdiff_m ex_file1 ex_file2 = 2 /\ hdiff_m ex_file2 ex_file1 = 2 /\ spec_exit ex_file1 ex_file2 = 1 /\
   In (Only1 (mkobj [118] (BVd 2 [([120], (22, 1))] [5; 6]))) (cmatch (f_objs ex_file1) (f_objs ex_file2)).
 Proof.
   split; [repeat constructor; simpl; intuition discriminate|].
